@@ -102,7 +102,7 @@ func (p *parser) integer() (neg bool, mag uint64) {
 func (p *parser) int64v() int64 {
 	neg, m := p.integer()
 	if neg {
-		return -int64(m - 1) - 1
+		return -int64(m-1) - 1
 	}
 	return int64(m)
 }
